@@ -283,7 +283,7 @@ def find_local(fn, name, ty=None, pred=None):
         if l.get("name") is None or i <= fn.arg_count and False:
             continue
         t = l["ty"]
-        if ty is not None and not (t == ty or t.endswith(ty)):
+        if ty is not None and not (t == ty or (not ty.startswith("std::") and t.endswith(ty) and not t.startswith("&"))):
             continue
         if pred is not None and not pred(fn, i):
             continue
@@ -324,3 +324,13 @@ def scan_index(fn, name="i"):
 def bool_flag_with_both_constants(fn, l):
     vals = {v for _, v in prim.const_assigns_to(fn, l)}
     return fn.local_ty(l) == "bool" and vals == {True, False}
+
+
+def quit_flag_local(df):
+    """do_find's quit flag: the user local whose `&mut` is the last argument of the process_dir call"""
+    for b, t in df.calls():
+        if t.callee == PROCESS_DIR and t.args:
+            l = prim.user_local_behind(df, t.args[-1])
+            if l is not None and df.local_ty(l) == "bool":
+                return l
+    return None
